@@ -8,6 +8,23 @@ FLOAT_T = {"'f4'", "'f8'", "'float32'", "'float64'", 'np.float32', 'np.float64',
            'numpy.float64', "'f'", "'d'", 'np.float16', 'np.double', 'np.single'}
 
 
+def float_dtype_expr(prog, f, e, depth=0):
+    """does the expression name a floating dtype?  `np.float32`, 'f4', `np.dtype('float32')`, `np.dtype(np.float64)`, or a
+    module-level / local name bound once to one of these (`_FLOAT32 = np.dtype('float32')`)"""
+    t = norm(e)
+    if t in FLOAT_T:
+        return True
+    if isinstance(e, ast.Call) and t.split('(')[0] in ('np.dtype', 'numpy.dtype') and len(e.args) == 1 and not e.keywords:
+        return float_dtype_expr(prog, f, e.args[0], depth + 1)
+    if isinstance(e, ast.Name) and depth < 3:
+        r = prog.resolve_name(f, f.module, e.id) if f is not None else None
+        if isinstance(r, tuple) and r and r[0] == 'local' and isinstance(r[2], ast.AST):
+            return float_dtype_expr(prog, r[1], r[2], depth + 1)
+        if isinstance(r, tuple) and r and r[0] == 'modvalue' and isinstance(r[3], ast.AST):
+            return float_dtype_expr(prog, None, r[3], depth + 1) if not isinstance(r[3], ast.Name) else False
+    return False
+
+
 def check_validate_arrays(prog, rep, rule, entry):
     """validate_arrays(*arrays): equal shapes, equal array types, and - for dask - every array rechunked to the
     first array's full chunk layout whenever the layouts differ.  Read on the inlined view (a check moved into a helper is
@@ -149,9 +166,7 @@ class FloatProv:
         if isinstance(e, ast.Call):
             nm = short(e)
             if nm == 'astype' and e.args:
-                if norm(e.args[0]) in FLOAT_T:
-                    return True
-                return False
+                return float_dtype_expr(self.prog, f, e.args[0])
             t = self.prog.resolve_callable(f, f.module, e.func)
             if isinstance(t, Ext) and t.dotted.split('.')[-1] == 'DataArray' and e.args:
                 return self.is_float(f, e.args[0], depth + 1, seen)
@@ -164,7 +179,7 @@ class FloatProv:
                 # a helper that casts: every return value is floating whatever it is given
                 rets = [r for r in tt.own_nodes() if isinstance(r, ast.Return) and r.value is not None] if not tt.is_lambda else []
                 if rets and all(isinstance(r.value, ast.Call) and short(r.value) == 'astype' and r.value.args and
-                                norm(r.value.args[0]) in FLOAT_T for r in rets):
+                                float_dtype_expr(self.prog, tt, r.value.args[0]) for r in rets):
                     return True
                 # package functions that transform an array keep (or widen) the dtype of their first argument
                 return self.is_float(f, e.args[0], depth + 1, seen)
@@ -199,7 +214,7 @@ class FloatProv:
                 if all(good):
                     return True
                 casts = [v for v in vals if isinstance(v, ast.AST) and isinstance(v, ast.Call) and short(v) == 'astype'
-                         and v.args and norm(v.args[0]) in FLOAT_T and norm(v.func.value) == e.id]
+                         and v.args and float_dtype_expr(self.prog, f, v.args[0]) and norm(v.func.value) == e.id]
                 if casts and getattr(casts[0], 'lineno', 10**9) < getattr(e, 'lineno', 0):
                     return True
                 return False
